@@ -90,3 +90,13 @@ claimed["C03"] = (
     "ErrAckTimeout, buffer == frames of the other packets in order, sendBufferMu free, socket still usable.",
     "Bounds: preemption bound 3. Outside the claim: real timer durations (the claim is about every ORDER), the wire format of ACK packets (C09), the one-reply guard of received events and the client-side race unless listed in the evidence.",
     "5 (C03)")
+
+claimed["C12"] = (
+    "Bounded symbolic execution of the admission and event-middleware kernels on a server built from the real stores, namespaces, in-memory adapters and packet queue (transport and encoder are recording stand-ins): "
+    "(1) chains of 0..3 (quick) / 0..5 (thorough) namespace middlewares, each accepting or rejecting by a symbolic Boolean (every accept/reject vector), rejection as error / string / structured data, default and custom "
+    "namespace, through the real serverConn.connect -> Namespace.add -> runMiddlewares -> doConnect -> onConnect: run order and short-circuit, socket listed / in own room / connected / connection handlers run IFF no "
+    "rejection, exactly one CONNECT_ERROR carrying the rejecting middleware's data and nothing of the socket left otherwise; (2) an event middleware registered through the real Use (signature check on the reflect "
+    "model) with five handler signature families (first parameter string / int / struct, no parameters, with ack function): it sees the event's NAME and arguments before the handler, a rejected event never "
+    "reaches the handler and is reported to the error handlers, an accepted one reaches it exactly once.",
+    "Outside the claim: concurrently connecting clients (C16), the wire encoding of CONNECT_ERROR (C09), auth payload decoding (encoding/json.Unmarshal is stubbed: succeeds, target untouched).",
+    "5 (C12)")
